@@ -526,6 +526,9 @@ impl<'a> LineBreaker<'a> {
         ]);
         // TeX.2021.864
         let mut diffs: Diffs = Default::default();
+        // Index of the first node after the nodes replaced by the most recent discretionary.
+        // TeX.2021.869 skips over the replaced nodes, so none of them is tried as a breakpoint.
+        let mut end_of_replaced_nodes = 0_usize;
         // This is the loop in TeX.2021.863
         for i in 0..=list.len() {
             let elem = list.get(i);
@@ -563,6 +566,7 @@ impl<'a> LineBreaker<'a> {
                     }
                     Discretionary(discretionary) => {
                         // TeX.2021.869
+                        end_of_replaced_nodes = i + 1 + discretionary.replace_count as usize;
                         disc_width = discretionary
                             .pre_break
                             .iter()
@@ -576,14 +580,14 @@ impl<'a> LineBreaker<'a> {
                             },
                             true,
                         )
-                        // Knuth includes the following optimization, which we omit.
                         // The discretionary node specifies that the following r
                         // elements of the horizontal list should be removed if
                         // a break occurs here. These elements must be one of the 6
-                        // types allowed in discretionary lists. None of these elements
-                        // can themselves be breakpoints. Thus, Knuth skips ahead
+                        // types allowed in discretionary lists. Knuth skips ahead
                         // by r elements in the horizontal list just updating the widths.
-                        // It's unclear if this optimization is worth implementing...
+                        // We don't skip ahead, but one of these elements could be taken
+                        // for a breakpoint (an explicit kern followed by glue), so the
+                        // kern case below checks `end_of_replaced_nodes`.
                     }
                     Whatsit(_whatsit) => todo!(),
                     Math(math) => {
@@ -613,6 +617,7 @@ impl<'a> LineBreaker<'a> {
                     Kern(kern) => {
                         if kern.kind == KernKind::Explicit
                             && auto_breaking
+                            && i >= end_of_replaced_nodes
                             && matches!(list.get(i + 1), Some(Glue(_)))
                         {
                             // List of allowable line breaks in TeXBook chapter 14 p96:
